@@ -1,14 +1,39 @@
-// hook for train/resistance/method/strap.rs (child module: `use super::*;` reaches the file's private items)
+// hook for train/resistance/method/strap.rs (Strap's fields are private)
 #[cfg(nrel_altrios_verif)]
 mod native {
-    #[allow(unused_imports)]
     use super::super::*;
     use crate::verif_hook::runner::*;
     use serde_json::{json, Value};
 
+    /// the objects one `update_res` call touches, bundled (mirrors the harness-side wrapper `W_UpdateRes`)
+    #[derive(Serialize, Deserialize)]
+    pub struct WUpdateRes {
+        pub res: Strap,
+        pub state: TrainState,
+        pub path_tpc: PathTpc,
+    }
+
+    fn dir(v: &Value) -> Dir {
+        match v.as_str().unwrap_or("Fwd") {
+            "Bwd" => Dir::Bwd,
+            "Unk" => Dir::Unk,
+            _ => Dir::Fwd,
+        }
+    }
+
+    fn call(o: &mut WUpdateRes, fname: &str, a: &[Value]) -> CallRes {
+        match fname {
+            "<method::strap::Strap as ResMethod>::update_res" => unit(o.res.update_res(&mut o.state, &o.path_tpc, &dir(&a[0]))),
+            _ => Err(Unsup(format!("no runner entry for {fname}"))),
+        }
+    }
+
     impl FileEntry for StrapTag {
-        fn call(_req: &Value) -> Value {
-            json!({"kind": "unsupported", "msg": "no entries yet"})
+        fn call(req: &Value) -> Value {
+            match req["recv_ty"].as_str().unwrap_or("") {
+                "W_UpdateRes" => run::<WUpdateRes>(req, call),
+                t => json!({"kind": "unsupported", "msg": format!("no runner for {t}")}),
+            }
         }
     }
 }
